@@ -117,6 +117,18 @@ Theorem C03_progress_when_sequential_handlers_do_not_publish : forall P cfg thre
 Proof. exact progress_when_sequential_handlers_do_not_publish. Qed.
 Print Assumptions C03_progress_when_sequential_handlers_do_not_publish.
 
+(* ... and when, moreover, only handler bodies panic (not the threads' own code, hooks, filters or the panic handler), no
+   goroutine ever dies of an unrecovered panic either: such programs never deadlock - in every reachable state of every
+   schedule some goroutine can step as long as one is unfinished *)
+Theorem C03_leaf_programs_never_deadlock : forall P cfg threads sched,
+  Pwf P -> Pleaf P -> Ppanic P cfg ->
+  (forall l, In l threads -> okacts P l = true) -> (forall l, In l threads -> nopanicb l = true) ->
+  let s := fst (run P cfg (init_state threads) sched) in
+  (exists a i rest, assoc_get (code s) a = Some (i :: rest)) ->
+  exists b s' ls, mstep P cfg s b = Some (s', ls).
+Proof. exact leaf_programs_never_deadlock. Qed.
+Print Assumptions C03_leaf_programs_never_deadlock.
+
 (* the class is not empty: a Sequential handler that only queries the registry, an ordinary handler that publishes *)
 Example C03_leaf_program :
   let P := {| p_bodies := [(0, {| b_acts := [] |}); (1, {| b_acts := [APub 1 5 CtxBg false] |}); (2, {| b_acts := [ACount 0] |})];
